@@ -79,7 +79,7 @@ func c19Run(r *zsim.Run) {
 	defer os.RemoveAll(dir)
 	sizeRule := o.Intn(2) == 1
 	gz := o.Intn(3) == 1
-	delim := zsim.Pick(o, "-", "_", "+", "#", ".")
+	delim := zsim.Pick(o, "-", "_", "+", "#", ".", "")
 	days := zsim.Pick(o, 0, 1, 3)
 	maxBackups := zsim.Pick(o, 0, 1, 3)
 	maxSize := int64(zsim.Pick(o, 200, 64, 1000))
